@@ -100,3 +100,40 @@ pub fn check(
     }
     rep
 }
+
+use plonky2::iop::witness::{PartitionWitness, Witness};
+use plonky2::plonk::circuit_data::CircuitData;
+use plonky2::plonk::config::{GenericConfig, Hasher};
+
+/// Judge a `PartitionWitness` (possibly with its own representative map) against `data`.
+/// `claimed_pis`: the public inputs the proof would carry (default: read from the witness).
+pub fn check_partition<C: GenericConfig<D, F = F>>(
+    data: &CircuitData<F, C, D>,
+    instances: &[GateInstance<F, D>],
+    pw: &PartitionWitness<F>,
+    claimed_pis: Option<&[F]>,
+) -> SatReport
+where
+    C::InnerHasher: Hasher<F, Hash = HashOut<F>>,
+{
+    let pis: Vec<F> = match claimed_pis {
+        Some(p) => p.to_vec(),
+        None => data.prover_only.public_inputs.iter().map(|&t| pw.try_get_target(t).unwrap_or(F::ZERO)).collect(),
+    };
+    let pih: HashOut<F> = <C::InnerHasher as Hasher<F>>::hash_no_pad(&pis);
+    let copy = PartitionWitness {
+        values: pw.values.clone(),
+        representative_map: pw.representative_map,
+        num_wires: pw.num_wires,
+        degree: pw.degree,
+    };
+    let matrix = copy.full_witness();
+    check(
+        instances,
+        &matrix,
+        &pih,
+        &data.prover_only.representative_map,
+        data.common.config.num_wires,
+        data.common.config.num_routed_wires,
+    )
+}
